@@ -10,7 +10,9 @@ Import ListNotations.
 Open Scope string_scope.
 
 Notation O := (QOps 0 0).
-(* what: "call" (model(x, **params)), "fwhm" (model.fwhm(params)), "construct" *)
+(* what: "call" (model(x, **params)), "fwhm" (model.fwhm(params)), "construct",
+   "names" / "guess" / "bounds": the keys of model.param_names / model.guess(data) /
+   model.param_bounds are handed over as the keys of pparams *)
 Record pcase := mkp { pwhat : string; pmodel : model; pparams : list (string * inp); px : inp;
                       pout : outcome; ptol : Q; pfloor : Q }.
 
@@ -24,6 +26,12 @@ Definition run (c : pcase) : val O :=
     | Leaf k p => gen_fwhm O k (self_of O k p) (VDict O ps)
     | Comp _ _ _ => VErr O "NotImplementedError"
     end
+  else if String.eqb (pwhat c) "names" || String.eqb (pwhat c) "guess" then
+    (if negb (constructible (pmodel c)) then VErr O "ValueError"
+     else if set_eqb (map fst (pparams c)) (pnames (pmodel c)) then VNone O else VErr O "keys-differ")
+  else if String.eqb (pwhat c) "bounds" then
+    (if negb (constructible (pmodel c)) then VErr O "ValueError"
+     else if set_eqb (map fst (pparams c)) (pbnames (pmodel c)) then VNone O else VErr O "keys-differ")
   else if String.eqb (pwhat c) "construct" then
     (if constructible (pmodel c) then VNone O else VErr O "ValueError")
   else VErr O "unknown-case".
